@@ -82,6 +82,8 @@ LARGER = [
     '[OH-]', '[OH3+]', '[NH4+]', 'C=[OH+]', '[O-][N+]#C', 'C[C]C',
     'c1ccc2c(c1)ccc1ccccc21', 'C1=CC2=CC=CC=C2C=C1', '[CH]1C=C1',
     'N->[Pt]', 'O->[Pt]',
+    # some hydrogens explicit (isotope labels), the others implicit
+    '[2H]C', '[3H]CC=O', '[2H]O', '[2H]C([2H])C', '[2H]OC', '[2H][2H]',
 ]
 _MOLS = {}
 
